@@ -172,10 +172,28 @@ func propKeys(c *Ctx, prop string) []string {
 		}
 		if contractMentions(ct, prop) {
 			keys = append(keys, k)
+			// what a closure requires of its creation (requires, stable) is proved in the
+			// function that creates it
+			if ct.Kind == "closure" {
+				if i := strings.Index(k, "#"); i > 0 {
+					pk := k[:i]
+					if pct, ok := c.contracts[pk]; ok && !pct.Trusted {
+						if pfi := c.funcs[pk]; pfi != nil && pfi.Body() != nil {
+							keys = append(keys, pk)
+						}
+					}
+				}
+			}
 		}
 	}
 	sort.Strings(keys)
-	return keys
+	var uniq []string
+	for i, k := range keys {
+		if i == 0 || k != keys[i-1] {
+			uniq = append(uniq, k)
+		}
+	}
+	return uniq
 }
 
 func cmdCheck(args []string) {
